@@ -90,6 +90,26 @@ func ruleC06_8(c *Ctx) {
 			}
 		}
 	}
+	// the two angle inputs: formulas in the sweep-adjusted extent and the segment count - or, for the start angle, a
+	// variable carried round the segment loop that becomes the end angle just used (C06.2 shows what it then is)
+	isAngleFormula := func(t *sym.Term) bool {
+		return sym.Mentions(t, "$param:sweep") && strings.Contains(t.Key(), "math.Ceil")
+	}
+	isAngle := func(t *sym.Term) bool {
+		if isAngleFormula(t) {
+			return true
+		}
+		if t.Op != "atom" {
+			return false
+		}
+		for f := fr.Parent; f != nil; f = f.Parent {
+			if phi := phiOfAtom(f, t); phi != nil {
+				_, back := phiEdges(f, phi)
+				return len(back) == 1 && isAngleFormula(back[0])
+			}
+		}
+		return false
+	}
 	// look through joins that were only abbreviated for their size (without rebuilding the terms)
 	walkDeep := func(t *sym.Term, fn func(*sym.Term) bool) {
 		seen := map[string]bool{}
@@ -365,7 +385,7 @@ func ruleC06_8(c *Ctx) {
 		if roleOf[i] != "" {
 			continue
 		}
-		if sym.Mentions(inp.term, "$param:sweep") && strings.Contains(inp.term.Key(), "math.Ceil") {
+		if isAngle(inp.term) {
 			continue // the two angle inputs are C06.2's business
 		}
 		cs := env.Cases(inp.term)
@@ -482,7 +502,11 @@ func ruleC06_8(c *Ctx) {
 	{
 		var taT, tbT *sym.Term
 		for _, inp := range inputs {
-			if !(sym.Mentions(inp.term, "$param:sweep") && strings.Contains(inp.term.Key(), "math.Ceil")) {
+			if !isAngle(inp.term) {
+				continue
+			}
+			if inp.term.Op == "atom" {
+				taT = inp.term // the carried start angle
 				continue
 			}
 			plusOne := false
@@ -494,7 +518,7 @@ func ruleC06_8(c *Ctx) {
 			})
 			if plusOne {
 				tbT = inp.term
-			} else {
+			} else if taT == nil {
 				taT = inp.term
 			}
 		}
@@ -834,7 +858,7 @@ func (c *Ctx) checkArcAngles(r *rend, in *sym.Interp, seg *sym.Frame, env *poly.
 		for i, a := range seg.Args {
 			_ = i
 			if a != nil && a.Op == "bin" && a.Name == "+" && len(a.Args) == 2 && t1 != nil && a.Args[0].Key() == t1.Key() {
-				ta = a
+				ta = a // either angle will do: both are theta1 + extent*k/n
 			}
 		}
 		skey := akey + ":sweep"
